@@ -39,41 +39,45 @@ Fixpoint parse_digits (neg : bool) (base : Z) (s : list N) (res : Z) : option Z 
       end
   end.
 
+Definition split_sign (s : list N) : bool * list N :=
+  match s with
+  | c :: r => if c =? 45 then (true, r) else if c =? 43 then (false, r) else (false, s)
+  | [] => (false, [])
+  end.
 Definition starts_0x (s : list N) : bool :=
-  match s with 48 :: x :: _ => (x =? 120) || (x =? 88) | _ => false end.
+  match s with c :: x :: _ => (c =? 48) && ((x =? 120) || (x =? 88)) | _ => false end.
+Definition starts_0 (s : list N) : bool := match s with c :: _ => c =? 48 | [] => false end.
+
+(* the optional second argument: u32::try_from, then 0 or 2..=36 *)
+Definition base_arg (rest : list arg) : option Z :=
+  match rest with
+  | AInt i :: _ =>
+      if (0 <=? i)%Z && (i <? 4294967296)%Z
+      then if (i =? 0)%Z || ((2 <=? i)%Z && (i <=? 36)%Z) then Some i else None
+      else None
+  | _ :: _ => None
+  | [] => Some 0%Z
+  end.
+
+Definition finish (neg : bool) (base : Z) (s : list N) : mres :=
+  match s with
+  | [] => RUndef
+  | _ => match parse_digits neg base s 0 with Some v => RInt v | None => RUndef end
+  end.
+
+Definition to_int_core (fixed : bool) (s0 : list N) (base : Z) : mres :=
+  let s := skip_ws fixed s0 in
+  let '(neg, s) := split_sign s in
+  if (base =? 0)%Z then
+    if starts_0x s then finish neg 16 (skipn 2 s)
+    else if starts_0 s then finish neg 8 s       (* s is not advanced, so that "0" parses *)
+    else finish neg 10 s
+  else if fixed && (base =? 16)%Z && starts_0x s then finish neg base (skipn 2 s)
+  else finish neg base s.
 
 Definition to_int_gen (fixed : bool) (args : list arg) : mres :=
   match args with
-  | AStr s0 :: rest =>
-      let s := skip_ws fixed s0 in
-      let base0 : option Z :=
-        match rest with
-        | AInt i :: _ =>
-            if (0 <=? i)%Z && (i <? 4294967296)%Z                (* u32::try_from *)
-            then if (i =? 0)%Z || ((2 <=? i)%Z && (i <=? 36)%Z) then Some i else None
-            else None
-        | _ :: _ => None
-        | [] => Some 0%Z
-        end in
-      match base0 with
-      | None => RUndef
-      | Some base =>
-          let '(neg, s) := match s with
-                           | 45 :: r => (true, r)
-                           | 43 :: r => (false, r)
-                           | _ => (false, s)
-                           end in
-          let '(base, s) :=
-            if (base =? 0)%Z then
-              if starts_0x s then (16%Z, skipn 2 s)
-              else match s with 48 :: _ => (8%Z, s) | _ => (10%Z, s) end
-            else if fixed && (base =? 16)%Z && starts_0x s then (base, skipn 2 s)
-            else (base, s) in
-          match s with
-          | [] => RUndef
-          | _ => match parse_digits neg base s 0 with Some v => RInt v | None => RUndef end
-          end
-      end
+  | AStr s0 :: rest => match base_arg rest with Some base => to_int_core fixed s0 base | None => RUndef end
   | _ => RUndef
   end.
 
